@@ -100,7 +100,7 @@ PROPS = {
         technique="Lean 4 theorems over an executable model + differential correspondence with the Go code",
     ),
     "C04": dict(
-        modules=["SpatialId.Props.C04", "SpatialId.Props.Facts.Zoom", "SpatialId.Props.Tie.Higher"],
+        modules=["SpatialId.Props.C04", "SpatialId.Props.C04Reflect", "SpatialId.Props.Facts.Zoom", "SpatialId.Props.Tie.Higher"],
         families=[("mrgExt", 4000, 20000), ("mrgSp", 3000, 15000)],
         trusted_base=COMMON_TB + ["Go map-based grouping read as a declarative group-by (same groups, same member order)"],
         assumptions=["int64(math.Pow(2, n)) is exact for 0 <= n <= 62"],
@@ -108,12 +108,12 @@ PROPS = {
               "inputs verbatim; the target voxel of every group whose members cover it; members of every other group "
               "verbatim), with 'dense' proved equivalent to 'the members' regions cover the target voxel' by a pigeonhole "
               "argument on the unit voxels; hence merge_region (same region of R^3), merge_nodup, merge_dense, "
-              "merge_unchanged and merge_idem. No bound on sizes or zoom spread. Tied to MergeExtendedSpatialIds / "
+              "merge_unchanged and merge_idem; merge_reflect (Props/C04Reflect.lean): merging commutes with the reflection "
+              "f -> -1-f of the vertical axis, i.e. the rule is the same above and below ground level. No bound on sizes or zoom spread. Tied to MergeExtendedSpatialIds / "
               "MergeSpatialIds by exact set comparison on generated groups (complete, one-short, partial, mixed zooms, "
               "straddling ground level, duplicates, ineligible inputs, malformed IDs).",
         note="Lean kernel + propext/Classical.choice/Quot.sound; model tied by sampling; defect D2 (Higher truncated "
-             "negative f) repaired by a fix: commit. The reflection symmetry above/below ground is a corollary of the "
-             "characterisation (floor ancestor on every axis) and is not stated separately.",
+             "negative f) repaired by a fix: commit.",
         technique="Lean 4 theorems over an executable model + differential correspondence with the Go code",
     ),
     "C05": dict(
@@ -135,7 +135,7 @@ PROPS = {
         technique="Lean 4 theorems over an executable model + differential correspondence with the Go code",
     ),
     "C08": dict(
-        modules=["SpatialId.Props.C08", "SpatialId.Props.C08Count", "SpatialId.Props.Facts.Shift"],
+        modules=["SpatialId.Props.C08", "SpatialId.Props.C08Count", "SpatialId.Props.C10Parse", "SpatialId.Props.Facts.Shift"],
         families=[("nbr", 12000, 80000), ("nN", 3000, 20000)],
         trusted_base=COMMON_TB,
         assumptions=["float64 math.Pow/math.Mod on integers below 2^53 are exact"],
@@ -145,7 +145,8 @@ PROPS = {
               "negative layers are an error; where 3 <= 2^h there are 6, 8, 26 distinct neighbours, never the voxel "
               "itself (2H+1 <= 2^h), and the relation is symmetric. Tied to the Go functions by exact comparison.",
         note="Lean kernel + propext/Classical.choice/Quot.sound; model tied by sampling; the model parses the ID once "
-             "where Go re-parses printed IDs (strconv round trip trusted). D13 repaired by a fix: commit.",
+             "where Go re-parses printed IDs: print-then-parse is the identity on int64 components (C10Parse.id_roundtrip_int64). "
+             "D13 repaired by a fix: commit.",
         technique="Lean 4 theorems over an executable model + differential correspondence with the Go code",
     ),
     "C09": dict(
@@ -162,17 +163,21 @@ PROPS = {
         technique="Lean 4 theorems (corollaries over the executable models) + composite differential checks on the Go code",
     ),
     "C10": dict(
-        modules=["SpatialId.Props.C10", "SpatialId.Props.Facts.Zoom", "SpatialId.Props.Tie.VZoom"],
+        modules=["SpatialId.Props.C10", "SpatialId.Props.C10Parse", "SpatialId.Props.Facts.Zoom", "SpatialId.Props.Tie.VZoom"],
         families=[("notation", 30000, 200000)],
-        trusted_base=COMMON_TB + ["strings.Split/strings.Join are inverse on '/'-free fields (Go library semantics)"],
+        trusted_base=COMMON_TB + ["the model's split (String.split on the character '/'), join, decimal print and parse are the Go "
+                                  "strings.Split/Join and strconv.FormatInt/ParseInt (compared on every case of every family)"],
         assumptions=[],
         claim="Theorems (Props/C10.lean): both notation conversions are the stated permutations of the field list, inverse "
               "to each other on every 4-field ID (and on 5-field IDs with equal zoom fields), reject every other arity, "
               "preserve list length and order; parsing reads the five numbers in their positions; the expansion of an "
               "extended ID is duplicate-free, at zoom max(h,v) on both axes, has 4^d resp. 2^d elements and its union "
-              "is exactly the original voxel (over R^3). Tied to the Go functions by exact comparison.",
-        note="Lean kernel + propext/Classical.choice/Quot.sound; model tied by sampling; string split/join and "
-             "integer print/parse are Go library semantics, compared on every case, not proved.",
+              "is exactly the original voxel (over R^3). Props/C10Parse.lean: the textual form is lossless -- print-then-parse is the "
+              "identity on every ID with int64 components (id_roundtrip, via parseInt64_fmtInt and splitSlash_joinSlash), "
+              "printing is injective, and the two notation conversions applied to a printed ID give the printed ID of the "
+              "same voxel in the other notation (sp2ext1_print, ext2sp1_print, sp_ext_sp). Tied to the Go functions by exact comparison.",
+        note="Lean kernel + propext/Classical.choice/Quot.sound; model tied by sampling; the model's string functions "
+             "(split, join, decimal print/parse) are proved inverse to each other and compared with Go's on every case.",
         technique="Lean 4 theorems over an executable model + differential correspondence with the Go code",
     ),
     "C11": dict(
